@@ -68,6 +68,8 @@ def gen_core(rng, knobs=None):
             inter.append({'kind': kind})
         elif kind == 'stream':
             pol = src_policy(rng, sources)
+            if rng.random() < k.get('p_auto_request', 0.3):
+                pol['auto_request'] = rng.choice([1, 2])
             n0 = rng.choice([1, 1, 2, 3, 5, 2147483647, None])
             prog.append(['stream', ep, sp, n0, pol, True])
             inter.append({'kind': kind, 'resp_scripted': pol['src'] == 'scripted'})
@@ -77,6 +79,8 @@ def gen_core(rng, knobs=None):
             pol['sub'] = rng.random() < 0.9
             has_pub = rng.random() < 0.8
             ppol = src_policy(rng, sources) if has_pub else None
+            if rng.random() < k.get('p_auto_request', 0.3):
+                pol['auto_request'] = rng.choice([1, 2])
             n0 = rng.choice([1, 2, 3, 5, 2147483647, None])
             prog.append(['channel', ep, sp, n0, pol, has_pub, ppol, True])
             inter.append({'kind': kind, 'resp_scripted': pol['src'] == 'scripted' and pol['pub'],
@@ -141,6 +145,10 @@ def gen_core(rng, knobs=None):
                 prog.append(['request_n', ref, sub_role, rng.choice([1, 1, 2, 3, 7, 2147483647])])
             elif a < 0.8 + p_cancel:
                 sub_role = 'req' if role == 'resp' else 'resp'
+                if rng.random() < k.get('p_cancel_race', 0.4):
+                    # the cancel races with elements of the peer that are already in the reader's buffer
+                    for src in ('c', 's'):
+                        prog.append(['deliver_nosettle', src, rng.choice([30, 71, 200, None])])
                 prog.append(['cancel', ref, sub_role])
     prog.append(['finish'])
     return opts, prog
